@@ -87,7 +87,7 @@ SCHEMA_ORDER = {"t": ["c", "a", "b"], "u": ["d", "b", "c"], "v": ["e", "a", "d"]
 TW = {"t": "tt", "u": "tu", "v": "tv"}
 CW = {x: "c" + x for x in "abcde"}
 DBW, CATW = "dd", "kk"
-SCHEMES = ("lower", "upper", "mixed", "quoted", "nonascii")
+SCHEMES = ("lower", "upper", "mixed", "quoted", "nonascii", "quoted-mixed", "quoted-nonascii")
 
 
 def spell(scheme, w):
@@ -102,6 +102,10 @@ def spell(scheme, w):
         return (w[0].upper() + " " + w[1:], True)
     if scheme == "nonascii":
         return (w + "É", False)
+    if scheme == "quoted-mixed":  # a safe identifier that is case-sensitive only because it is quoted (ASCII upper case)
+        return (w[0] + w[1:].upper(), True)
+    if scheme == "quoted-nonascii":  # ... case-sensitive only through a non-ASCII upper-case letter
+        return (w + "É", True)
     if scheme == "nonascii2":
         return (w + "é", False)
     raise ValueError(scheme)
@@ -789,6 +793,12 @@ def skeletons():
     add("cte-shadow", sel([pe(col("d"))], [cte(T("t"))], with_=ws))
     add("cte-shadow", sel([STAR], [cte(T("t")), u], with_=ws))
     add("cte-shadow", sel([pe(col("a"))], [cte(T("t"))], with_=ws))  # ca is not a column of the CTE
+    # a WITH nested in a derived table defines a CTE named like a base table, next to an outer WITH: the name must not leak to
+    # the sibling derived table, which reads the real table
+    nested = sel([pe(xa)], [cte(T("u"))], with_=[(T("u"), sel([pe(col("a"), "xa")], [cte(wa)]), None)])
+    add("cte-nested-shadow", sel([STAR], [sub(nested, "sa"), sub(sel([STAR], [u]), "sb")], with_=[(wa, i1, None)]))
+    add("cte-nested-shadow", sel([STAR], [sub(sel([STAR], [u]), "sb"), sub(nested, "sa")], with_=[(wa, i1, None)]))
+    add("cte-nested-shadow", sel([pe(xa), pe(col("d", AT("sb")))], [sub(nested, "sa"), sub(sel([pe(col("d")), pe(col("c"))], [u]), "sb")], with_=[(wa, i1, None)]))
     # chained CTEs
     wb = AT("wb")
     add("cte-chain", sel([STAR], [cte(wb)], with_=[(wa, i1, None), (wb, sel([STAR], [cte(wa)]), None)]))
@@ -1075,6 +1085,7 @@ def check_sql(sql, dialect, schema, expected, alt_expected, top_star, fam, all_k
                     V("column-source-not-visible", f"column {c.sql(dialect or None)!r}: source {c.table!r} is not among the visible sources {vis} in {rsql[:120]!r}")
 
     # (c) / (d)
+    names_bad = False
     names_clause = "star-expansion" if top_star else "output-names"
     left = None
     if all_known:
@@ -1091,6 +1102,7 @@ def check_sql(sql, dialect, schema, expected, alt_expected, top_star, fam, all_k
             for e in (expected, alt_expected)
         )
         if not ok:
+            names_bad = True
             V(names_clause, f"output names {got} != expected {expected}" + (f" (or {alt_expected})" if alt_expected and alt_expected != expected else ""))
 
     # (e)
@@ -1103,7 +1115,22 @@ def check_sql(sql, dialect, schema, expected, alt_expected, top_star, fam, all_k
             V("idempotence", f"qualify twice differs: {rsql[:110]!r} -> {r2sql[:110]!r}")
         elif not (r2 == r):
             V("idempotence", f"qualify twice gives the same text but a different tree: {rsql[:110]!r}")
-    return "accepted", viol, 2, n_norm
+    # (f) the same with identify=False: names that need quotes to keep their spelling must still get them, so that the result
+    # denotes the same columns (same output names; qualifying it again neither fails nor changes it)
+    stf, rf = _sqlglot_call(lambda: qualify(tree.copy(), schema=schema, dialect=dialect or None, identify=False))
+    if stf == "ok":
+        rfsql = rf.sql(dialect or None)
+        if expected is not None and left is None and not names_bad:  # (a defect of the default run is not repeated)
+            gotf = list(rf.named_selects)
+            okf = any(e is not None and len(e) == len(gotf) and all(x is None or x == g for x, g in zip(e, gotf)) for e in (expected, alt_expected))
+            if not okf:
+                V(names_clause + "-unquoted", f"identify=False: output names {gotf} != expected {expected}")
+        stf2, rf2 = _sqlglot_call(lambda: qualify(rf.copy(), schema=schema, dialect=dialect or None, identify=False))
+        if stf2 in ("optimize", "sqlglot"):
+            V("idempotence-unquoted", f"identify=False: qualify(qualify(q)) raised {type(rf2).__name__}: {str(rf2)[:80]!r} on {rfsql[:100]!r}")
+        elif stf2 == "ok" and rf2.sql(dialect or None) != rfsql:
+            V("idempotence-unquoted", f"identify=False: qualify twice differs: {rfsql[:110]!r} -> {rf2.sql(dialect or None)[:110]!r}")
+    return "accepted", viol, 3, n_norm
 
 
 def _ident_verdict(bt, bq, at, aq, strategy, ascii_only, override):
